@@ -998,6 +998,67 @@ theorem wf_run (h : Heap) (hwf : h.WF) (ops : List Op) : (run h ops).1.WF := by
 
 theorem wf_empty : Heap.empty.WF := by intro u hu; simp [Heap.empty] at hu
 
+/-! ## a dict changes only through a mutator applied to a wrapper that owns it -/
+
+/-- the wrapper a mutator is applied to -/
+def Op.target : Op → Option Nat
+  | .setDefault r _ => some r
+  | .removeDefault r _ => some r
+  | _ => none
+
+theorem cell_step (h : Heap) (op : Op) (c : Nat) (hc : c < h.dicts.length)
+    (hno : ∀ r u, op.target = some r → h.ws[r]? = some u → u.cell ≠ c) :
+    (step h op).1.dicts[c]? = h.dicts[c]? := by
+  cases hm : op.mutates with
+  | false =>
+    have hx : h.dicts[c]? = some h.dicts[c] := List.getElem?_eq_getElem hc
+    rw [hx]
+    exact getElem?_of_prefix (frame_step h op hm).1 hx
+  | true =>
+    cases op with
+    | setDefault r σ =>
+      simp only [step]
+      split
+      · rename_i u d hl
+        have hw := (look_some_cell hl).1
+        exact List.getElem?_set_ne (hno r u rfl hw)
+      · rfl
+    | removeDefault r ks =>
+      simp only [step]
+      split
+      · rename_i u d hl
+        have hw := (look_some_cell hl).1
+        exact List.getElem?_set_ne (hno r u rfl hw)
+      · rfl
+    | _ => simp [Op.mutates] at hm
+
+/-- **user-supplied containers and every other dict, over all histories**: whatever sequence of
+    operations is run — mutators included — a dict keeps its content unless `set_default` /
+    `remove_default` is applied to a wrapper whose `defaults` IS that dict.  (A dict the user never handed
+    to a constructor as `defaults=` is owned by no wrapper and therefore never changes; the mapping passed
+    to a call is not even part of the heap.) -/
+theorem cell_run (h : Heap) (ops : List Op) (c : Nat) (hc : c < h.dicts.length)
+    (hno : ∀ op ∈ ops, ∀ r u, op.target = some r → (run h ops).1.ws[r]? = some u → u.cell ≠ c) :
+    (run h ops).1.dicts[c]? = h.dicts[c]? := by
+  induction ops generalizing h with
+  | nil => rfl
+  | cons op ops ih =>
+    rw [run_cons] at hno ⊢
+    have h1 : (step h op).1.dicts[c]? = h.dicts[c]? := by
+      apply cell_step h op c hc
+      intro r u ht hw
+      apply hno op (by simp) r u ht
+      exact getElem?_of_prefix ((ws_step h op).trans (ws_run _ ops)) hw
+    have hc1 : c < (step h op).1.dicts.length := by
+      by_contra hcon
+      rw [List.getElem?_eq_none (by omega), List.getElem?_eq_getElem hc] at h1
+      cases h1
+    rw [ih (step h op).1 hc1 (fun o ho => hno o (by simp [ho])), h1]
+
+example : (run Heap.empty [.newDict [("b", 1)], .wrapFun 0 ["a", "b"] [], .setDefault 0 [("b", 5)],
+    .wrapExplicit 1 ["a", "b"] (some 0), .partialEval 1 [("q", 3)], .setDefault 2 [("a", 4)]]).1.dicts[0]?
+    = some [("b", 1)] := by decide
+
 /-! ## vectorize=True: one invocation per row -/
 
 theorem allSome_eq_some {α} (l : List (Option α)) (ys : List α) (h : allSome l = some ys) : l = ys.map some := by
